@@ -221,7 +221,9 @@ func (h Engine) applyAuthMiddleware(echoServer core.EchoRouter, path string, con
 	address := h.server.getAddressForPath(path)
 
 	skipper := func(c echo.Context) bool {
-		return !matchesPath(c.Request().RequestURI, path)
+		// Decide on the path the router dispatches on, not on the raw request target:
+		// the latter may be in absolute-form (GET http://host/internal/...) or carry a query string.
+		return !matchesPath(echo.GetPath(c.Request()), path)
 	}
 
 	// Auth
